@@ -215,6 +215,7 @@ func histCase(args []string) string {
 			rc.c.Close()
 			<-rc.closed
 			waitOut("peer disconnected", before+1)
+			time.Sleep(40 * time.Millisecond) // the handler's remaining deferred calls (removePeer, connLimiter.Release) run after that line
 			delete(conns, c)
 			hl := 0
 			if countOut("session deleted") > hostBefore {
@@ -247,6 +248,9 @@ func histCase(args []string) string {
 			for time.Now().Before(deadline) && countOut("peer disconnected") < countOut("peer connected")-len(conns) {
 				time.Sleep(2 * time.Millisecond)
 			}
+			if len(ks) > 0 {
+				time.Sleep(40 * time.Millisecond)
+			}
 			out = append(out, "t:"+strings.Join(ks, ","))
 		case "m":
 			c, _ := strconv.Atoi(f[1])
@@ -276,6 +280,7 @@ func histCase(args []string) string {
 			} else {
 				<-rc.closed
 				waitOut("peer disconnected", before+1)
+				time.Sleep(40 * time.Millisecond)
 				delete(conns, c)
 				_ = hostBefore
 				out = append(out, "dropped")
